@@ -94,7 +94,8 @@ Conf(S, s, it, P, path) ==
                        ELSE IF inner.mt # 4 \/ Len(inner.kids) < s.b THEN Bad(path, "set-min")
                        ELSE LET r == Conf(S, PList(s.a), inner, P, Append(path, "set")) IN
                             IF r # OK THEN r
-                            ELSE IF \E x, y \in 1..Len(inner.kids) : x < y /\ SameData(inner.kids[x], inner.kids[y]) THEN Bad(path, "set-dup") ELSE OK
+                            \* datums are identified by their bytes (hash): only byte-identical elements are duplicates
+                            ELSE IF \E x, y \in 1..Len(inner.kids) : x < y /\ SameEnc(inner.kids[x], inner.kids[y]) THEN Bad(path, "set-dup") ELSE OK
     [] s.k = "map" -> IF it.mt # 5 \/ ~(P = "ledger" \/ (~it.indef /\ ShortestHead(it))) THEN Bad(path, "map-head")
                       ELSE ConfMapFields(S, s.a, it, P, path, 1)
     [] s.k = "table" -> IF it.mt # 5 \/ ~(P = "ledger" \/ (~it.indef /\ ShortestHead(it))) THEN Bad(path, "table-head")
